@@ -52,6 +52,8 @@ fn spellings() -> Vec<Spelling> {
         "JKQVWYZ",
         // a name ending in G: a blank and an O after it must not be taken for the start of GO TO
         "FLAG",
+        // a numeral longer than any fixed buffer a tokenizer might collect digits in
+        "3.14159265358979323846264338327",
     ];
     let mut v: Vec<Spelling> = plain.iter().map(|s| sp(s)).collect();
     v.push(sp("[\"a B\"]"));
@@ -244,6 +246,53 @@ fn global_forms(b: &Base) -> Vec<(&'static str, String)> {
     ]
 }
 
+/// Remarks spelled in every way the keyword can be spelled, loaded as a source file: the stored
+/// tokens (the remark's text included, trailing blanks and all) do not depend on the spelling.
+fn remark_spellings_as_files() -> (u64, Vec<Violation>) {
+    let mut out = vec![];
+    let mut n = 0u64;
+    for (prefix, tail) in [("", " hi  "), ("", "\tx \t"), ("PRINT 1: ", " k  "), ("", ""), ("", "  two  words "), ("X = 1 : ", " a:b ")] {
+        let spellings = ["REM", "rem", "Rem", "R EM", "RE M", "r e m", "REM"];
+        let mut first: Option<(String, Vec<(u64, Vec<String>)>)> = None;
+        for sp in spellings {
+            n += 1;
+            let line = format!("10 {}{}{}", prefix, sp, tail);
+            let text = line.clone();
+            let toks = match guarded(move || abasic_core::SourceFileAnalyzer::analyze(text).into_interpreter()) {
+                Ok(it) => Sess::from_interpreter(it).it.verif_snapshot().lines,
+                Err(p) => {
+                    out.push(Violation { signature: format!("panic {}", short_panic(&p)), detail: p, case: json!({"kind":"file","text":line}) });
+                    continue;
+                }
+            };
+            // the same line typed at the prompt
+            let mut s = Sess::new();
+            let _ = s.apply(&Ev::Line(line.clone()));
+            let typed = s.it.verif_snapshot().lines;
+            if typed != toks {
+                out.push(Violation {
+                    signature: format!("a remark loaded as a file differs from the same line typed ({:?})", sp),
+                    detail: format!("{:?}: loaded {:?}, typed {:?}", line, toks, typed),
+                    case: json!({"kind":"file","text":line}),
+                });
+            }
+            match &first {
+                None => first = Some((line, toks)),
+                Some((l0, t0)) => {
+                    if *t0 != toks {
+                        out.push(Violation {
+                            signature: format!("the spelling of REM changes the stored remark ({:?})", sp),
+                            detail: format!("{:?} is stored as {:?}; {:?} as {:?}", l0, t0, line, toks),
+                            case: json!({"kind":"file","text":line}),
+                        });
+                    }
+                }
+            }
+        }
+    }
+    (n, out)
+}
+
 pub fn run(thorough: bool) -> Report {
     let mut rep = Report::new("C12", "exploration");
     let sps = spellings();
@@ -347,7 +396,12 @@ pub fn run(thorough: bool) -> Report {
             case: json!({"kind":"line_pair","base":b,"perturbed":t}),
         });
     }
+    let (remark_files, rv) = remark_spellings_as_files();
+    for v in rv {
+        rep.add(v);
+    }
     rep.coverage = json!({
+        "remark_spellings_loaded_as_files": remark_files,
         "evaluations": evals + bases,
         "distinct_nontrivial": evals,
         "rule": "base lines = all sequences of <= n token spellings joined by single blanks (REM/DATA only where they do not swallow later spellings); every perturbation (base, deviation set) is a distinct case and non-trivial (it differs from its base by construction)",
